@@ -45,6 +45,12 @@ type devSim struct {
 	// the device has asked a question (password, confirm) in a reply that was cut short after it:
 	// the next lines are answers to it, not commands
 	answerNext int
+	// fault kind "question": the device answered a command with an interactive question instead of
+	// its prompt; the next line is the answer, after it the conforming reply goes on
+	pendingQ    string // callhome | confirm | more
+	pendingRest string // the conforming reply of the command that was asked about
+	answered    bool   // the line just read was the answer to pendingQ
+	atCommand   bool   // fault() is called for the reply to a command of the command loop
 }
 
 // finish records the end of the session (the harness waits for this mark) and exits.
@@ -81,7 +87,11 @@ func (d *devSim) readLine(isCmd bool) (string, bool) {
 			line = strings.TrimRight(line, "\r\n")
 			d.nRead++
 			kind := "answer" // input to a question of the device (password, yes/no, confirm)
-			if isCmd && d.answerNext > 0 {
+			if isCmd && d.pendingQ != "" {
+				kind = d.st.applyAnswer(d.pendingQ, line)
+				d.pendingQ = ""
+				d.answered = true
+			} else if isCmd && d.answerNext > 0 {
 				d.answerNext--
 			} else if isCmd {
 				kind = d.st.applyLine(line)
@@ -153,6 +163,41 @@ func (d *devSim) fault(echoLine, normal string, promptAfter string) bool {
 		return false
 	case "silence":
 		d.silent = true
+	case "question":
+		// An interactive question instead of the prompt.  None of the texts matches a pattern the
+		// code under test waits for (no `#`, `>`, `password:`, `(yes/no`, no `?` at the end), so
+		// code that does not know the question sees no prompt and gives up: for it the device is
+		// silent from here on.  Code that types an answer is served: the device state reacts to the
+		// answer as the device would, then the conforming reply follows.
+		if !d.atCommand || more {
+			// inside the login dialogue, or a command whose own reply asks for input (enable →
+			// Password:): plain silence
+			d.silent = true
+			break
+		}
+		cmd := strings.TrimSpace(strings.TrimPrefix(strings.TrimSpace(echoLine), "do "))
+		switch {
+		case cmd == "configure terminal" && d.cfg.Backend == "ASA":
+			d.pendingQ = "callhome"
+			d.emit(echoLine + "\n***************************** NOTICE *****************************\n\n" +
+				"Help to improve the ASA platform by enabling anonymous reporting,\n" +
+				"which allows Cisco to securely receive minimal error and health\n" +
+				"information from the device. To learn more about this feature,\n" +
+				"please visit: http://www.cisco.com/go/smartcall\n\n" +
+				"Would you like to enable anonymous error reporting to help improve\n" +
+				"the product? [Y]es, [N]o, [A]sk later: ")
+		case d.nRead%2 == 0:
+			d.pendingQ = "confirm"
+			d.emit(echoLine + "This may take a while. Continue [confirm]")
+		default:
+			d.pendingQ = "more"
+			first, _, _ := strings.Cut(chunk, "\n")
+			if strings.ContainsAny(first, "#>?") || strings.Contains(strings.ToLower(first), "assword") {
+				first = "" // nothing the code under test could take for a prompt or a question it knows
+			}
+			d.emit(echoLine + first + "\n --More-- ")
+		}
+		d.pendingRest = normal
 	case "truncated":
 		if more {
 			d.emit(echoLine + chunk)
@@ -262,7 +307,23 @@ func runDevSim(dir string) {
 			d.emit(cmd + "\n")
 			return
 		}
-		if d.fault(cmd+"\n", out, prompt) {
+		if d.answered {
+			// the answer to a question of the device: the reply of the command asked about goes on
+			d.answered = false
+			d.emit(cmd + "\n")
+			ok, faulted := d.sendWithReads(d.pendingRest, prompt)
+			if !ok {
+				return
+			}
+			if !faulted {
+				d.emit(prompt)
+			}
+			continue
+		}
+		d.atCommand = true
+		replaced := d.fault(cmd+"\n", out, prompt)
+		d.atCommand = false
+		if replaced {
 			continue
 		}
 		d.emit(cmd + "\n")
